@@ -136,6 +136,36 @@ namespace
         if (it.extra)
             p += "?size=" + std::to_string(it.extra);
         std::string w = it.method + " " + p + " HTTP/1.1\r\nHost: x\r\nX-Tag: " + it.tag + "\r\n";
+        // Typed headers the workers parse at the same moment (by the tag, no choice consumed): an HTTP date in one of the
+        // three accepted formats with fields that differ from request to request, cookies, a content type with a
+        // quality, Cache-Control, Accept - whatever their parsers share between threads is then used concurrently.
+        {
+            uint64_t h = fnv1a(it.tag);
+            static const char* DAY[] = { "Mon", "Tue", "Wed", "Thu", "Fri", "Sat", "Sun" };
+            static const char* MON[] = { "Jan", "Feb", "Mar", "Apr", "May", "Jun", "Jul", "Aug", "Sep", "Oct", "Nov", "Dec" };
+            char d[96];
+            // 1 Jan 2001 was a Monday; day-of-month 1..28 of January 2001 keeps the weekday arithmetic trivial
+            unsigned dom = 1 + unsigned(h % 28), hh = unsigned((h >> 8) % 24), mm = unsigned((h >> 16) % 60), ss = unsigned((h >> 24) % 60);
+            switch ((h >> 32) % 4)
+            {
+            case 0:
+                snprintf(d, sizeof d, "Date: %s, %02u %s 2001 %02u:%02u:%02u GMT\r\n", DAY[(dom - 1) % 7], dom, MON[0], hh, mm, ss);
+                break;
+            case 1:
+                snprintf(d, sizeof d, "Date: %s, %02u-%s-01 %02u:%02u:%02u GMT\r\n", DAY[(dom - 1) % 7], dom, MON[0], hh, mm, ss);
+                break;
+            case 2:
+                snprintf(d, sizeof d, "Date: %s %s %2u %02u:%02u:%02u 2001\r\n", DAY[(dom - 1) % 7], MON[0], dom, hh, mm, ss);
+                break;
+            default:
+                d[0] = 0;
+            }
+            w += d;
+            if ((h >> 40) % 2)
+                w += "Cookie: sid=" + std::to_string(h % 100000) + "; theme=" + std::string(1 + (h >> 44) % 40, 'c') + "\r\n";
+            if ((h >> 48) % 3 == 0)
+                w += "Accept: text/html;q=0." + std::to_string(1 + (h >> 50) % 9) + ", application/json, */*;q=0.1\r\nCache-Control: max-age=" + std::to_string(h % 86400) + ", no-transform\r\n";
+        }
         if (!it.body.empty())
             w += "Content-Length: " + std::to_string(it.body.size()) + "\r\n";
         return w + "\r\n" + it.body;
